@@ -44,3 +44,64 @@ def relevant_intermediates(root):
                 for c in ch:
                     rel.setdefault(c.get_id(), []).append(R)
     return out
+
+
+def safety_conditions(roots):
+    """relevance-aware safety conditions of the partial operations a set of result terms
+    depends on: (what, formula) with formula = relevance ==> side condition.  A division by
+    zero or sqrt of a negative number inside a branch that np.where / minimum / maximum
+    discards does not reach the result."""
+    out = []
+    seen = set()
+    for root in roots:
+        if not isinstance(root, z3.ExprRef):
+            continue
+        order = []
+        vis = set()
+        stack = [(root, False)]
+        while stack:
+            e, done = stack.pop()
+            if done:
+                order.append(e)
+                continue
+            if e.get_id() in vis:
+                continue
+            vis.add(e.get_id())
+            stack.append((e, True))
+            for c in e.children():
+                stack.append((c, False))
+        order.reverse()
+        rel = {root.get_id(): [z3.BoolVal(True)]}
+        for e in order:
+            conds = rel.get(e.get_id())
+            if not conds:
+                continue
+            R = z3.simplify(z3.Or(*conds)) if len(conds) > 1 else conds[0]
+            if not z3.is_app(e):
+                continue
+            k = e.decl().kind()
+            ch = e.children()
+            nm = e.decl().name()
+            cond = None
+            if k == z3.Z3_OP_DIV:
+                cond = ("nonzero-denominator", ch[1] != 0)
+            elif k == z3.Z3_OP_UNINTERPRETED and nm == "sqrt":
+                cond = ("sqrt-arg-nonneg", ch[0] >= 0)
+            elif k == z3.Z3_OP_UNINTERPRETED and nm == "rpow":
+                cond = ("pow-base-positive", ch[0] > 0)
+            elif k == z3.Z3_OP_UNINTERPRETED and nm == "ln":
+                cond = ("log-arg-positive", ch[0] > 0)
+            if cond is not None:
+                key = (cond[1].get_id(), R.get_id())
+                if key not in seen:
+                    seen.add(key)
+                    out.append((cond[0], z3.Implies(R, cond[1])))
+            if k == z3.Z3_OP_ITE and len(ch) == 3:
+                c, x, y = ch
+                rel.setdefault(c.get_id(), []).append(R)
+                rel.setdefault(x.get_id(), []).append(z3.And(R, c))
+                rel.setdefault(y.get_id(), []).append(z3.And(R, z3.Not(c)))
+            else:
+                for c in ch:
+                    rel.setdefault(c.get_id(), []).append(R)
+    return out
